@@ -10,7 +10,8 @@ EXPLANATION = ('The real ListGrader (check, perform_check, find_optimal_order, M
                'execution path z3 decides: ordered => entry i is the subgrader result for (answer i, input i); unordered => the reported '
                'entries form a one-to-one assignment, each reported at the position of the input it grades, whose total credit is >= the '
                'total of EVERY assignment (all n! as one conjunction); several answer lists => total >= every list\'s optimum; '
-               'partial_credit=False => all entries zero unless all are fully correct.')
+               'partial_credit=False => all entries zero unless all are fully correct.'
+               ' Several answer lists with partial_credit=False: credits in {0,1} as symbolic integers, entries all-or-nothing with respect to the BEST list.')
 ASSUMPTIONS = ['item credits are arbitrary reals in [0,1] ("full") or in (0,1) ("interior"); item strings are concrete distinct tokens',
                'the subgrader is an author-defined ItemGrader subclass returning the table credit (documented extension point)']
 BOUNDS = {'quick': 'assignment-solver inductive steps 1 and 6 (n<=3, arbitrary pre-state); 4 inputs with one symbolic palette row; n<=2 full credits, n=3 interior credits; 2 alternative answer lists n=2 interior; grouped/nested layouts of 4 inputs (2 groups x 2) interior',
